@@ -922,6 +922,8 @@ pub struct Pre {
     pub base: Base,
     pub expires: u64,
     pub placement: &'static str,
+    /// a signer that writes another day into `X-Amz-Credential` than the one it derives scope and key from
+    pub split_scope: bool,
 }
 
 fn presign_query(b: &Base, expires: &str, ts: &str, cred: &str, signed: &str) -> Vec<(Vec<u8>, Vec<u8>)> {
@@ -942,7 +944,8 @@ pub fn sign_presigned_case(rng: &mut Rng, p: &mut Pre) -> (Case, Vec<(Vec<u8>, V
     b.signed = choose_signed(rng, b);
     let hs = spec_headers(b);
     let (ak, sk) = AUTH_TABLE[b.ak];
-    let cred = format!("{ak}/{date8}/{}/{}/aws4_request", b.region, b.service);
+    let cred_date = if p.split_scope { amz_timestamp(b.unix + 86400)[..8].to_owned() } else { date8.clone() };
+    let cred = format!("{ak}/{cred_date}/{}/{}/aws4_request", b.region, b.service);
     let q = presign_query(b, &p.expires.to_string(), &ts, &cred, &b.signed.join(";"));
     let sig = sign(
         &ToSign { method: &b.method, path: &b.path, query: &q, headers: &hs, signed: &b.signed, payload_line: "UNSIGNED-PAYLOAD" },
@@ -959,7 +962,7 @@ pub fn sign_presigned_case(rng: &mut Rng, p: &mut Pre) -> (Case, Vec<(Vec<u8>, V
         shuffle(rng, &mut wire_q);
     }
     let case = Case {
-        kind: format!("pre.valid-{}", p.placement),
+        kind: format!("pre.{}-{}", if p.split_scope { "scope-date-split" } else { "valid" }, p.placement),
         sink: b.sink.clone(),
         http2: b.http2,
         authority: b.authority.clone().map(String::into_bytes),
@@ -1123,9 +1126,15 @@ pub fn generate_presigned(rng: &mut Rng, n: u64, emit: &mut dyn FnMut(Vec<String
             _ => ("inside-future", now + rng.range(margin, 900 - margin) as i64),
         };
         base.unix = unix;
-        let mut p = Pre { base, expires, placement };
+        let split_scope = rng.chance(1, 25);
+        let mut p = Pre { base, expires, placement, split_scope };
         let (valid, full) = sign_presigned_case(rng, &mut p);
         let mut all = vec![valid.clone()];
+        if split_scope {
+            emit(valid.fields());
+            produced += 1;
+            continue;
+        }
         let mut vars = Vec::new();
         presigned_variants(rng, &p, &valid, &full, &mut vars);
         if rng.chance(1, 3) {
